@@ -48,8 +48,9 @@ class ZONEINFO(TZProvider):
         except ValueError:
             # ValueError: ZoneInfo keys may not be absolute paths, got: /Europe/CUSTOM
             pass
-        except OSError:
-            # the name of a directory of the tz database (Europe), a name too long for a file
+        except (OSError, RecursionError):
+            # the name of a directory of the tz database (Europe), a name too long for a file,
+            # a name of hundreds of path segments (the tzdata fallback imports a package per segment)
             pass
 
     def knows_timezone_id(self, id: str) -> bool:
